@@ -232,7 +232,8 @@ def lean_check(pid, cfg, thorough):
 def run_pair(pid, run, tier, seed, shard, replay=None):
     """Run one harness (+ driver) shard. Returns dict with verdict tallies."""
     name = run["harness"]
-    d = os.path.join(BUILD, "run", pid, f"{run.get('name', name)}_{shard}")
+    # one directory per check process: two checks of the same property may run at the same time
+    d = os.path.join(BUILD, "run", pid, f"p{os.getpid()}", f"{run.get('name', name)}_{shard}")
     shutil.rmtree(d, ignore_errors=True)
     os.makedirs(d)
     ops = os.path.join(d, "ops.txt")
@@ -382,6 +383,14 @@ def main(argv):
         if not ok:
             broken.append(f"harness {run['harness']} does not build against /repo: {o[-1500:]}")
         built.add(key)
+
+    # drop run directories of check processes that no longer exist
+    rdir = os.path.join(BUILD, "run", pid)
+    if os.path.isdir(rdir):
+        for n in os.listdir(rdir):
+            alive = n.startswith("p") and n[1:].isdigit() and os.path.exists(f"/proc/{n[1:]}")
+            if not alive:
+                shutil.rmtree(os.path.join(rdir, n), ignore_errors=True)
 
     # 4. correspondence: corpus first, then generated shards
     jobs = []
